@@ -582,6 +582,9 @@ def set_notebook_diff_ignores(ignore_paths):
             if path in notebook_differs:
                 del notebook_differs[path]
         elif isinstance(subkeys, (list, tuple, set)):
+            # Filter the default differ of path, not one installed earlier:
+            if path in notebook_differs:
+                del notebook_differs[path]
             notebook_differs[path] = diff_ignore_keys(notebook_differs[path], subkeys)
         else:
             raise ValueError('Invalid ignore config entry: %r: %r' % (path, subkeys))
@@ -591,6 +594,17 @@ def set_notebook_diff_targets(sources=True, outputs=True, attachments=True,
                               metadata=True, identifier=True, details=True):
     """Configure the notebook differs to include/ignore various changes."""
 
+    # Keys of a cell that are atomic or optional are filtered from the cell
+    # diff itself, as no differ is consulted for a replaced, added or removed
+    # value:
+    cell_keys = ()
+    if not details:
+        cell_keys += ('execution_count',)
+    if not identifier:
+        cell_keys += ('id',)
+    if not attachments:
+        cell_keys += ('attachments',)
+
     config = {
         '/cells/*/source': not sources,
         '/cells/*/outputs': not outputs,
@@ -599,7 +613,7 @@ def set_notebook_diff_targets(sources=True, outputs=True, attachments=True,
         '/cells/*/id': not identifier,
         '/cells/*/metadata': not metadata,
         '/cells/*/outputs/*/metadata': not metadata,
-        '/cells/*': False if details else ('execution_count',),
+        '/cells/*': cell_keys or False,
         '/cells/*/outputs/*': False if details else ('execution_count',),
     }
     set_notebook_diff_ignores(config)
